@@ -323,11 +323,11 @@ def gen_amend_project(rng):
             commands[lbl] = []
             act = {"op": "step", "label": lbl, "resources": res_for()}
         else:
-            lbl = fresh("p")                       # sub-plan
+            lbl = fresh("p")                       # sub-plan: a planning step (need = PLAN)
             body = []
             children(lbl, depth, body, 3)
             commands[lbl] = body
-            act = {"op": "step", "label": lbl, "resources": res_for()}
+            act = {"op": "step", "label": lbl, "resources": res_for(), "need": "PLAN"}
         declared_in[lbl] = owner
         return act
 
@@ -403,6 +403,24 @@ def scenario_hold_amend():
                 "C": [], "D": [], "W": []}
     return (e3.Project(sources=sources, program={"scripts": {"plan.py": plan}, "commands": commands}),
             {}, {"P": "./plan.py", "W": "./plan.py", "C": "P", "D": "P"})
+
+
+def scenario_hold_plan():
+    """A planning step (api.plan: need = PLAN) without stored hash, declared inside a (nested) hold block of its
+    creator: like any other step it must not start before the outermost hold is released (only a step WITH a stored
+    hash may be looked at earlier, and then no command runs). Free job slots are available (njob = 3)."""
+    from . import e3
+    plan = [{"op": "step", "label": "P"}]
+    commands = {"P": [{"op": "hold"}, {"op": "hold"},
+                      {"op": "step", "label": "Q", "need": "PLAN"},
+                      {"op": "release"},
+                      {"op": "step", "label": "R", "need": "PLAN"},
+                      {"op": "step", "label": "W"},
+                      {"op": "gate", "name": "P-mid"}, {"op": "release"}],
+                "Q": [{"op": "step", "label": "Q1"}], "R": [{"op": "step", "label": "R1"}],
+                "W": [], "Q1": [], "R1": []}
+    return (e3.Project(sources={}, program={"scripts": {"plan.py": plan}, "commands": commands}),
+            {}, {"P": "./plan.py", "Q": "P", "R": "P", "W": "P", "Q1": "Q", "R1": "R"})
 
 
 def scenario_over_release():
